@@ -10,11 +10,34 @@ package volume
 //@ ensures[C03] consumed(highs) == len(highs) && consumed(lows) == len(lows) && consumed(closings) == len(closings) && consumed(volumes) == len(volumes) && closed(result)
 //@ ensures[C04] forall kk :: 0 <= kk && kk < len(result) ==> hor(result, kk) <= max(hor(highs, kk + (0)), max(hor(lows, kk + (0)), max(hor(closings, kk + (0)), hor(volumes, kk + (0)))))
 
+// Chaikin Money Flow: MFM = ((close - low) - (high - close)) / (high - low), MFV = MFM * volume,
+// CMF = sum of MFV over Period bars / sum of volume over the same bars.
+//@ stream mfmS(h stream, l stream, c stream)[j] = ((c[j] - l[j]) - (h[j] - c[j])) / (h[j] - l[j])
+//@ stream mfvS(h stream, l stream, c stream, v stream)[j] = mfmS(h, l, c)[j] * v[j]
+//@ stream cmfS(h stream, l stream, c stream, v stream, P int)[k] = (psum(mfvS(h, l, c, v), k + P) - psum(mfvS(h, l, c, v), k)) / (psum(v, k + P) - psum(v, k))
+//@ lemma mfv_abs(h stream, l stream, c stream, v stream, j int)
+//@ requires[C15] barok(h, l, c, j) && l[j] < h[j] && v[j] >= 0
+//@ ensures[C15] 0 - v[j] <= mfvS(h, l, c, v)[j] && mfvS(h, l, c, v)[j] <= v[j]
+//@ use mul_unit(mfmS(h, l, c)[j], v[j])
+//@ lemma cmfS_range(h stream, l stream, c stream, v stream, P int, k int)
+//@ requires[C15] P >= 1 && k >= 0 && (forall j :: k <= j && j < k + P ==> barok(h, l, c, j) && l[j] < h[j] && v[j] >= 0) && psum(v, k + P) - psum(v, k) > 0
+//@ ensures[C15] 0 - 1 <= cmfS(h, l, c, v, P)[k] && cmfS(h, l, c, v, P)[k] <= 1
+//@ use mfv_abs(h, l, c, v, _)
+//@ use psum_window_abs(mfvS(h, l, c, v), v, k, k + P)
+//@ use ratio_sym(psum(mfvS(h, l, c, v), k + P) - psum(mfvS(h, l, c, v), k), psum(v, k + P) - psum(v, k))
 //@ func Cmf.Compute
 //@ requires c.Sum.Period >= 1 && consumed(highs) == 0 && consumed(lows) == 0 && consumed(closings) == 0 && consumed(volumes) == 0 && len(highs) == len(lows) && len(highs) == len(closings) && len(highs) == len(volumes)
 //@ ensures[C02] len(result) == max(0, len(highs) - (c.IdlePeriod()))
 //@ ensures[C03] consumed(highs) == len(highs) && consumed(lows) == len(lows) && consumed(closings) == len(closings) && consumed(volumes) == len(volumes) && closed(result)
 //@ ensures[C04] forall kk :: 0 <= kk && kk < len(result) ==> hor(result, kk) <= max(hor(highs, kk + (c.IdlePeriod())), max(hor(lows, kk + (c.IdlePeriod())), max(hor(closings, kk + (c.IdlePeriod())), hor(volumes, kk + (c.IdlePeriod())))))
+//@ step[C01,C15] "mfv" forall j :: 0 <= j && j < len(highs) ==> mfvs[j] == mfvS(highs, lows, closings, volumes)[j]
+//@ use psum_cong(mfvs, mfvS(highs, lows, closings, volumes), _)
+//@ use psum_cong(volumesSplice[1], volumes, _)
+//@ step[C01,C15] "sums" forall k :: 0 <= k && k < len(result) ==> res(MovingSum_Compute, 0)[k] == psum(mfvS(highs, lows, closings, volumes), k + c.Sum.Period) - psum(mfvS(highs, lows, closings, volumes), k) && res(MovingSum_Compute, 1)[k] == psum(volumes, k + c.Sum.Period) - psum(volumes, k)
+//@ step[C01,C15] "formula" forall k :: 0 <= k && k < len(result) ==> result[k] == cmfS(highs, lows, closings, volumes, c.Sum.Period)[k]
+//@ ensures[C01] "formula" forall k :: 0 <= k && k < len(result) ==> result[k] == cmfS(highs, lows, closings, volumes, c.Sum.Period)[k]
+//@ use cmfS_range(highs, lows, closings, volumes, c.Sum.Period, _)
+//@ ensures[C15] "range" forall k :: 0 <= k && k < len(result) && (forall j :: k <= j && j < k + c.Sum.Period ==> barok(highs, lows, closings, j) && lows[j] < highs[j] && volumes[j] >= 0) && psum(volumes, k + c.Sum.Period) - psum(volumes, k) > 0 ==> 0 - 1 <= result[k] && result[k] <= 1
 
 //@ func Emv.Compute
 //@ requires e.Sma.Period >= 1 && consumed(highs) == 0 && consumed(lows) == 0 && consumed(volumes) == 0 && len(highs) == len(lows) && len(highs) == len(volumes)
@@ -28,11 +51,33 @@ package volume
 //@ ensures[C03] consumed(closings) == len(closings) && consumed(volumes) == len(volumes) && closed(result)
 //@ ensures[C04] forall kk :: 0 <= kk && kk < len(result) ==> hor(result, kk) <= max(hor(closings, kk + (f.IdlePeriod())), hor(volumes, kk + (f.IdlePeriod())))
 
+// Money Flow Index: raw money flow = typical price * volume; a bar's flow is positive/negative by the sign of the change
+// of the raw money flow; MFI = 100 - 100 / (1 + sum of positive flows / sum of negative flows) over Period bars.
+//@ stream rmfS(h stream, l stream, c stream, v stream)[j] = (h[j] + l[j] + c[j]) / 3 * v[j]
+//@ stream mfS(h stream, l stream, c stream, v stream)[j] = (rmfS(h, l, c, v)[j+1] - rmfS(h, l, c, v)[j] > 0 ? 1 : (rmfS(h, l, c, v)[j+1] - rmfS(h, l, c, v)[j] < 0 ? 0 - 1 : 0)) * rmfS(h, l, c, v)[j+1]
+//@ stream posmfS(h stream, l stream, c stream, v stream)[j] = (mfS(h, l, c, v)[j] > 0 ? mfS(h, l, c, v)[j] : 0)
+//@ stream negmfS(h stream, l stream, c stream, v stream)[j] = (mfS(h, l, c, v)[j] < 0 ? mfS(h, l, c, v)[j] : 0) * (0 - 1)
+//@ stream mfiS(h stream, l stream, c stream, v stream, P int)[k] = 100 - 100 * (1 / (1 + (psum(posmfS(h, l, c, v), k + P) - psum(posmfS(h, l, c, v), k)) / (psum(negmfS(h, l, c, v), k + P) - psum(negmfS(h, l, c, v), k))))
+//@ lemma mfiS_range(h stream, l stream, c stream, v stream, P int, k int)
+//@ requires[C15] P >= 1 && k >= 0 && psum(negmfS(h, l, c, v), k + P) - psum(negmfS(h, l, c, v), k) > 0
+//@ ensures[C15] 0 <= mfiS(h, l, c, v, P)[k] && mfiS(h, l, c, v, P)[k] <= 100
+//@ use psum_window_nonneg(posmfS(h, l, c, v), k, k + P)
+//@ use osc100_range(psum(posmfS(h, l, c, v), k + P) - psum(posmfS(h, l, c, v), k), psum(negmfS(h, l, c, v), k + P) - psum(negmfS(h, l, c, v), k))
 //@ func Mfi.Compute
 //@ requires m.Sum.Period >= 1 && consumed(highs) == 0 && consumed(lows) == 0 && consumed(closings) == 0 && consumed(volumes) == 0 && len(highs) == len(lows) && len(highs) == len(closings) && len(highs) == len(volumes)
 //@ ensures[C02] len(result) == max(0, len(highs) - (m.IdlePeriod()))
 //@ ensures[C03] consumed(highs) == len(highs) && consumed(lows) == len(lows) && consumed(closings) == len(closings) && consumed(volumes) == len(volumes) && closed(result)
 //@ ensures[C04] forall kk :: 0 <= kk && kk < len(result) ==> hor(result, kk) <= max(hor(highs, kk + (m.IdlePeriod())), max(hor(lows, kk + (m.IdlePeriod())), max(hor(closings, kk + (m.IdlePeriod())), hor(volumes, kk + (m.IdlePeriod())))))
+//@ step[C01,C15] "raw" forall j :: 0 <= j && j < len(highs) ==> rawMoneyFlowSplice[0][j] == rmfS(highs, lows, closings, volumes)[j] && rawMoneyFlowSplice[1][j] == rmfS(highs, lows, closings, volumes)[j]
+//@ step[C01,C15] "flow" forall j :: 0 <= j && j < len(highs) - 1 ==> moneyFlowSplice[0][j] == mfS(highs, lows, closings, volumes)[j] && moneyFlowSplice[1][j] == mfS(highs, lows, closings, volumes)[j]
+//@ step[C01,C15] "pos-neg" forall j :: 0 <= j && j < len(highs) - 1 ==> res(KeepPositives, 0)[j] == posmfS(highs, lows, closings, volumes)[j] && res(MultiplyBy, 0)[j] == negmfS(highs, lows, closings, volumes)[j]
+//@ use psum_cong(res(KeepPositives, 0), posmfS(highs, lows, closings, volumes), _)
+//@ use psum_cong(res(MultiplyBy, 0), negmfS(highs, lows, closings, volumes), _)
+//@ step[C01,C15] "sums" forall k :: 0 <= k && k < len(result) ==> res(MovingSum_Compute, 0)[k] == psum(posmfS(highs, lows, closings, volumes), k + m.Sum.Period) - psum(posmfS(highs, lows, closings, volumes), k) && res(MovingSum_Compute, 1)[k] == psum(negmfS(highs, lows, closings, volumes), k + m.Sum.Period) - psum(negmfS(highs, lows, closings, volumes), k)
+//@ step[C01,C15] "formula" forall k :: 0 <= k && k < len(result) ==> result[k] == mfiS(highs, lows, closings, volumes, m.Sum.Period)[k]
+//@ ensures[C01] "formula" forall k :: 0 <= k && k < len(result) ==> result[k] == mfiS(highs, lows, closings, volumes, m.Sum.Period)[k]
+//@ use mfiS_range(highs, lows, closings, volumes, m.Sum.Period, _)
+//@ ensures[C15] "range" forall k :: 0 <= k && k < len(result) && psum(negmfS(highs, lows, closings, volumes), k + m.Sum.Period) - psum(negmfS(highs, lows, closings, volumes), k) > 0 ==> 0 <= result[k] && result[k] <= 100
 
 //@ func Mfm.Compute
 //@ requires consumed(highs) == 0 && consumed(lows) == 0 && consumed(closings) == 0 && len(highs) == len(lows) && len(highs) == len(closings)
@@ -41,12 +86,14 @@ package volume
 //@ ensures[C04] forall kk :: 0 <= kk && kk < len(result) ==> hor(result, kk) <= max(hor(highs, kk + (0)), max(hor(lows, kk + (0)), hor(closings, kk + (0))))
 //@ ensures[C01] "formula" forall k :: 0 <= k && k < len(result) ==> result[k] == ((closings[k] - lows[k]) - (highs[k] - closings[k])) / (highs[k] - lows[k])
 //@ ensures[C15] "range" forall k :: 0 <= k && k < len(result) && lows[k] <= closings[k] && closings[k] <= highs[k] && lows[k] < highs[k] ==> 0 - 1 <= result[k] && result[k] <= 1
+//@ ensures[C01] "formula-stream" forall k :: 0 <= k && k < len(result) ==> result[k] == mfmS(highs, lows, closings)[k]
 
 //@ func Mfv.Compute
 //@ requires consumed(highs) == 0 && consumed(lows) == 0 && consumed(closings) == 0 && consumed(volumes) == 0 && len(highs) == len(lows) && len(highs) == len(closings) && len(highs) == len(volumes)
 //@ ensures[C02] len(result) == max(0, len(highs) - (0))
 //@ ensures[C03] consumed(highs) == len(highs) && consumed(lows) == len(lows) && consumed(closings) == len(closings) && consumed(volumes) == len(volumes) && closed(result)
 //@ ensures[C04] forall kk :: 0 <= kk && kk < len(result) ==> hor(result, kk) <= max(hor(highs, kk + (0)), max(hor(lows, kk + (0)), max(hor(closings, kk + (0)), hor(volumes, kk + (0)))))
+//@ ensures[C01] "formula" forall k :: 0 <= k && k < len(result) ==> result[k] == mfvS(highs, lows, closings, volumes)[k]
 
 //@ func Nvi.Compute
 //@ requires consumed(closings) == 0 && consumed(volumes) == 0 && len(closings) == len(volumes)
